@@ -62,17 +62,21 @@ func c06Check(sn *rkSnap) []c06Problem {
 			esc := t.Obj.GetObjectInfo().IsEscaped
 			if rv.Hash.IsZero() {
 				if !esc {
-					// Not part of the property statement: when a dirty parent is
-					// saved before its dirty child (order of Realm.updated) the
-					// child's hash is still zeroed and the parent is stored without
-					// it. Recorded as an observation only.
+					// The hashes embedded in references are not part of the property
+					// statement (it only asks that an object's stored hash is the
+					// hash of its stored bytes), and the unchanged tree deviates in
+					// three ways: a dirty parent saved before its dirty child is
+					// stored without the child's hash (order of Realm.updated); a
+					// re-parented child's new parent keeps an outdated hash; a
+					// parent keeps the hash of a child that escaped through another
+					// realm's finalization. All three are recorded as observations.
 					add("obs:child-hash-omitted", "object %s references non-escaped %s without embedding its hash", id, tid)
 				}
 			} else {
 				if esc {
-					add("child-hash", "object %s embeds a hash for escaped object %s", id, tid)
+					add("obs:child-hash-on-escaped", "object %s embeds a hash for escaped object %s", id, tid)
 				} else if !bytes.Equal(rv.Hash.Bytes(), t.Hash) {
-					add("child-hash", "object %s embeds hash %x for %s whose stored hash is %x", id, rv.Hash.Bytes(), tid, t.Hash)
+					add("obs:child-hash-stale", "object %s embeds hash %x for %s whose stored hash is %x", id, rv.Hash.Bytes(), tid, t.Hash)
 				}
 			}
 		}
@@ -92,7 +96,11 @@ func c06Check(sn *rkSnap) []c06Problem {
 		}
 		wantOwner := oi.RefCount == 1 && !oi.IsEscaped
 		if wantOwner != !oi.OwnerID.IsZero() {
-			add("owner", "object %s (%T): RefCount %d IsEscaped %v but OwnerID %q", id, o.Obj, oi.RefCount, oi.IsEscaped, oi.OwnerID.String())
+			kind := "owner"
+			if oi.IsEscaped && oi.RefCount == 1 {
+				kind = "owner-on-escaped"
+			}
+			add(kind, "object %s (%T): RefCount %d IsEscaped %v but OwnerID %q", id, o.Obj, oi.RefCount, oi.IsEscaped, oi.OwnerID.String())
 		}
 		if !oi.OwnerID.IsZero() {
 			ow := sn.Objs[oi.OwnerID.String()]
@@ -310,6 +318,12 @@ var c06Debug = os.Getenv("C06_DEBUG") != ""
 // parent; the new parent may then embed an outdated hash of it.
 const c06KeyStaleOwner = "owner-id-stale-after-reparenting"
 
+// c06KeyEscapedOwner: second divergence of the unchanged tree. An object that
+// escaped in an earlier transaction (IsEscaped is sticky) and whose reference
+// count drops to zero and rises to one again inside one transaction gets the
+// new referrer recorded as owner although escaped objects must not have one.
+const c06KeyEscapedOwner = "escaped-object-records-owner"
+
 // c06After runs the checker after one transaction.
 func c06After(ctx *vk.Ctx, ch *rkChain, tr *c06Track, where string) error {
 	sn, err := rkSnapshot(ch.DB)
@@ -318,21 +332,17 @@ func c06After(ctx *vk.Ctx, ch *rkChain, tr *c06Track, where string) error {
 	}
 	tr.observe(sn)
 	probs := c06Check(sn)
-	stale := map[string]bool{}
-	for _, p := range probs {
-		if p.Kind == "owner-stale" {
-			stale[p.Obj] = true
-		}
-	}
 	var bad []string
 	for _, p := range probs {
 		if strings.HasPrefix(p.Kind, "obs:") {
 			ctx.Class(p.Kind)
 			continue
 		}
-		// the stale owner itself, and the outdated hash of exactly such an
-		// object inside its new parent, are the known divergence
-		if (p.Kind == "owner-stale" || (p.Kind == "child-hash" && stale[p.Obj])) && ctx.Known(c06KeyStaleOwner) {
+		if p.Kind == "owner-stale" && ctx.Known(c06KeyStaleOwner) {
+			ctx.Class("known:" + p.Kind)
+			continue
+		}
+		if p.Kind == "owner-on-escaped" && ctx.Known(c06KeyEscapedOwner) {
 			ctx.Class("known:" + p.Kind)
 			continue
 		}
@@ -773,6 +783,9 @@ func c06ProgExec(ctx *vk.Ctx, c c06ProgCase) error {
 		return fmt.Errorf("harness: %v", err)
 	}
 	if r.Error != nil {
+		if c06Debug {
+			fmt.Printf("C06 deploy failed: %s\n%s\n", strings.Split(rkErr(r), "\n")[0], c.Prog.Src)
+		}
 		ctx.Class("discard:deploy-failed")
 		return nil
 	}
